@@ -15,7 +15,9 @@ class KDSingleCollatorWrapper(KDCollatorBase):
         return self
 
     def __call__(self, batch):
-        batch, ctx = self.collator.collate(batch=batch, dataset_mode=self.dataset_mode, ctx={})
-        if self.return_ctx:
-            return batch, ctx
-        return batch
+        return self._call_impl(
+            batch=batch,
+            collators=[self.collator],
+            dataset_mode=self.dataset_mode,
+            return_ctx=self.return_ctx,
+        )
